@@ -562,8 +562,14 @@ def case_run(ctx, case, scratch: C.Scratch, full: bool = True):
     ref_dict = C.to_dict(aw_ref)
     ref = run_convert(copy.deepcopy(ref_dict))
     ref_dd = run_parse(copy.deepcopy(ref_dict))
-    ref_stem = run_convert(copy.deepcopy(C.to_dict(aw_ref, fallback=stem))) if stem != "data" else ref
-    ref_dd_stem = run_parse(copy.deepcopy(C.to_dict(aw_ref, fallback=stem)))
+    refs_by_stem = {}
+
+    def ref_for(st, level):
+        """the dict channel's result with `fallback_form_name` = the stem the harness reads off the file name"""
+        if (st, level) not in refs_by_stem:
+            d = C.to_dict(aw_ref, fallback=st)
+            refs_by_stem[(st, level)] = run_convert(copy.deepcopy(d)) if level == "convert" else run_parse(copy.deepcopy(d))
+        return refs_by_stem[(st, level)]
     ctx.count("dict:" + ref["class"])
     compared = 0
 
@@ -609,7 +615,12 @@ def case_run(ctx, case, scratch: C.Scratch, full: bool = True):
             is_trunc = truncating and container in ("xlsx", "xlsm", "xls")
             text = data if isinstance(data, str) else None
             for level in (("convert", "parse") if first or rng.random() < case.get("p_both", 0.3) else (rng.choice(["convert", "parse"]),)):
-                arg, cleanup, gives_stem = C.deliver(container, data, ch, scratch, stem=stem)
+                name = C.file_name(rng, container, stem) if ch in ("path", "pathlike") else None
+                if name is not None and mode == "implicit" and container in ("xlsm",):
+                    name = stem + C.EXT[container]  # xlsm bytes = xlsx bytes: nothing to sniff
+                arg, cleanup, gives_stem = C.deliver(container, data, ch, scratch, stem=stem, name=name)
+                if gives_stem:
+                    ctx.count("path-suffix:" + (name[len(stem):] or "(none)"))
                 try:
                     if ch == "bytesio_twice":
                         run_parse(arg, file_type=ft)  # first use of the stream; the second one is observed
@@ -619,9 +630,9 @@ def case_run(ctx, case, scratch: C.Scratch, full: bool = True):
                 ctx.count(f"run:{container}/{ch}/{mode}/{level}")
                 if is_trunc:
                     continue
-                exp = (ref_stem if gives_stem else ref) if level == "convert" else (ref_dd_stem if gives_stem else ref_dd)
-                judge(ctx, case, container, ch, mode, o, exp, aw_ref, data_text=text, level=level,
-                      stem=stem if gives_stem else None)
+                st = C.path_stem(name) if gives_stem else None
+                exp = ref_for(st, level) if gives_stem else (ref if level == "convert" else ref_dd)
+                judge(ctx, case, container, ch, mode, o, exp, aw_ref, data_text=text, level=level, stem=st)
                 compared += 1
             first = False
     ctx.record({"aw": aw, "layout": lay, "stem": stem}, nontrivial=ref["class"] in ("ok", "pyxform") and compared >= 3)
